@@ -73,4 +73,4 @@ def run(ctx):
 
 
 def replay(ctx):
-    return storeprop.replay(ctx, ID, predicate)
+    return storeprop.replay(ctx, ID, predicate, known_matchers={"find_limit0": limit0})
